@@ -129,6 +129,8 @@ theorem frame_createLink (a b) : Frame (createLink a b) := by unfold createLink;
 macro_rules | `(tactic| frame_lemma) => `(tactic| with_reducible apply frame_createLink)
 theorem frame_matchXtypeGeneric (t h) : Frame (matchXtypeGeneric t h) := by unfold matchXtypeGeneric; frame_auto
 macro_rules | `(tactic| frame_lemma) => `(tactic| with_reducible apply frame_matchXtypeGeneric)
+theorem frame_buildXtype (c) : Frame (buildXtype c) := by unfold buildXtype; frame_auto
+macro_rules | `(tactic| frame_lemma) => `(tactic| with_reducible apply frame_buildXtype)
 theorem frame_matchXtype (t r h) : Frame (matchXtype t r h) := by unfold matchXtype; frame_auto
 macro_rules | `(tactic| frame_lemma) => `(tactic| with_reducible apply frame_matchXtype)
 theorem frame_guessXtype (t r) : Frame (guessXtype t r) := by unfold guessXtype; frame_auto
@@ -182,6 +184,16 @@ theorem frame_iterDescendants (fuel) (n) : Frame (iterDescendants fuel n) := by
 macro_rules | `(tactic| frame_lemma) => `(tactic| with_reducible apply frame_iterDescendants)
 theorem frame_deleteEnter (t self es) : Frame (deleteEnter t self es) := by unfold deleteEnter; frame_auto
 macro_rules | `(tactic| frame_lemma) => `(tactic| with_reducible apply frame_deleteEnter)
+theorem frame_isInstanceOf (t n c) : Frame (isInstanceOf t n c) := by unfold isInstanceOf; frame_auto
+macro_rules | `(tactic| frame_lemma) => `(tactic| with_reducible apply frame_isInstanceOf)
+theorem frame_typecastTarget (t row) : Frame (typecastTarget t row) := by unfold typecastTarget; frame_auto
+macro_rules | `(tactic| frame_lemma) => `(tactic| with_reducible apply frame_typecastTarget)
+theorem frame_typecastOnOwner (t row o) : Frame (typecastOnOwner t row o) := by unfold typecastOnOwner; frame_auto
+macro_rules | `(tactic| frame_lemma) => `(tactic| with_reducible apply frame_typecastOnOwner)
+theorem frame_coupledRow (t row o) : Frame (coupledRow t row o) := by unfold coupledRow; frame_auto
+macro_rules | `(tactic| frame_lemma) => `(tactic| with_reducible apply frame_coupledRow)
+theorem frame_findRelations (o) : Frame (findRelations o) := by unfold findRelations; frame_auto
+macro_rules | `(tactic| frame_lemma) => `(tactic| with_reducible apply frame_findRelations)
 theorem frame_valKnown (v) : Frame (valKnown v) := by unfold valKnown; frame_auto
 macro_rules | `(tactic| frame_lemma) => `(tactic| with_reducible apply frame_valKnown)
 
